@@ -77,7 +77,7 @@ def o2(ctx):
     sw = set(C.slot_writers(crate))
     for lid in C.need("leader-union", C.leader_union_functions(crate)):
         b = crate.bodies[lid]
-        aps = [b.var_names.get(i) for i in range(1, b.argc + 1) if b.local_ty(i) == "types::AppliedId"]
+        aps = [b.var_names.get(i) for i in range(1, b.argc + 1) if b.local_ty(i).lstrip("&").strip() == "types::AppliedId"]
         cs = C.calls_to(crate, b, sw)
         firsts = [strip_role(b.role_of_operand(c.args[1])) for c in cs]
         ok = sorted(str(f) for f in firsts) == sorted(str(("param", p)) for p in aps)
@@ -155,14 +155,8 @@ def o4(ctx):
         b = mir.inline_view(crate, crate.bodies[hid], keep=("shape", "proven_shape", "proven_proven_shape", "lookup_internal", "raw_add_to_class", "raw_remove_from_class", "handle_congruence", "determine_self_symmetries", "update_analysis"))
         shapes = {c.bb for c in b.calls if c.callee and c.callee.name in ("shape", "proven_shape", "proven_proven_shape") and not b.blocks[c.bb]["cleanup"]}
         # the analysis-only early return: an edge of a switch on the discriminant of the pending-type parameter
-        only = []
-        for sb in b.switch_blocks():
-            r = b.role_of_operand(b.blocks[sb]["term"]["discr"])
-            if r[0] == "discr" and strip_role(r[1])[0] == "param" and "PendingType" in b.local_ty(b.param_index(strip_role(r[1])[1]) or 0):
-                adt = crate.adt_named("egraph::PendingType")
-                names = [v["name"] for v in adt["variants"]] if adt else []
-                if "OnlyAnalysis" in names:
-                    only += C.variant_edges(b, sb, names.index("OnlyAnalysis"), nvariants=len(names))
+        only = C.known_variant_edges(crate, b, lambda r: isinstance(r, tuple) and r[0] == "param" and "PendingType" in b.local_ty(b.param_index(r[1]) or 0),
+                                     "egraph::PendingType", "OnlyAnalysis")
         n += 1
         ok = bool(shapes) and b.must_pass([0], b.return_blocks(), shapes | set(only))
         ctx.check(ok, "full-request-reshapes:" + C.fkey(crate.bodies[hid]), "every path through %s is the analysis-only return or recomputes the node's shape" % C.short(hid),
@@ -171,3 +165,11 @@ def o4(ctx):
 
 
 RULES.append(o4)
+
+
+@rule("O5", doc="the self-symmetry derivation runs after every re-insert and has no shortcut in front of the variant enumeration (C02.P6)")
+def o5(ctx):
+    c02.p6(ctx)
+
+
+RULES.append(o5)
